@@ -147,6 +147,8 @@ def _region_nodes(cfg):
         tot = sum(p)
         pn = [x / tot for x in p]
         for k in range(V):
+            if pn[k] == 0.0:
+                continue  # a masked class (logit -inf / probability 0) owns no region of the unit cube
             for v in itertools.product(mids, repeat=V):
                 U.append(O.gumbel_region_u(pn, v, k)); Vn.append(list(v)); W.append(pn[k] / K ** V); Kk.append(k)
     return U, Vn, W, Kk
@@ -181,6 +183,10 @@ def run_relax_region(ctx, cfg):
     tvals = cfg["f"]
     sig = {"api": cfg["est"], "proposal": "logistic_bernoulli" if logistic else "gumbel_one_hot",
            "is_log": is_log, "grid": "region-mapped", "cv": (cfg.get("cv") or {}).get("kind")}
+    masked = (not logistic) and min(p) == 0.0
+    if masked:
+        sig["masked_" + cfg["par"]] = True
+    par_t = None
     try:
         if logistic:
             if cfg["par"] == "probs":
@@ -191,11 +197,14 @@ def run_relax_region(ctx, cfg):
             want = tvals[0] + (tvals[1] - tvals[0]) * p[0]
         else:
             V = len(p)
-            pt = torch.tensor(p, dtype=dtype).expand(B, V)
+            # the parameter tensor is a leaf with requires_grad, so that the estimate's gradient
+            # can be inspected; masked classes: probability exactly 0 / logit exactly -inf
             if cfg["par"] == "probs":
-                dist = D.GumbelOneHotCategorical(probs=pt)
+                par_t = torch.tensor(p, dtype=dtype, requires_grad=True)
+                dist = D.GumbelOneHotCategorical(probs=par_t.expand(B, V))
             else:
-                dist = D.GumbelOneHotCategorical(logits=pt.log())
+                par_t = torch.tensor(p, dtype=dtype).log().requires_grad_(True)
+                dist = D.GumbelOneHotCategorical(logits=par_t.expand(B, V))
             t = torch.tensor(tvals, dtype=dtype)
             flin = lambda b: (b * t).sum(-1)
             f = (lambda b: flin(b).log()) if is_log else flin
@@ -217,6 +226,13 @@ def run_relax_region(ctx, cfg):
                     v = E.StraightThroughEstimator(dist, f, N, is_log)()
         if tuple(v.shape) != (B,):
             raise ValueError(f"estimate has shape {tuple(v.shape)}, expected {(B,)}")
+        gbad = None
+        if par_t is not None and cfg["est"] == "relax" and v.requires_grad:
+            # value only is promised for the relaxation estimators, but the gradient they hand to the
+            # optimiser must at least be a number in every coordinate
+            g, = torch.autograd.grad(((v.exp() if is_log else v).double() * wprod).sum(), [par_t], allow_unused=True)
+            if g is not None and not torch.isfinite(g).all():
+                gbad = g.tolist()
         v = v.detach().double()
         if is_log:
             v = v.exp()
@@ -226,13 +242,16 @@ def run_relax_region(ctx, cfg):
         ctx.violation(dict(sig, symptom="raises", type=type(ex).__name__), case, {"error": repr(ex)[-400:]})
         return
     ctx.case(B)
+    if gbad is not None:
+        ctx.violation(dict(sig, symptom="gradient-not-finite", N=N), case, {"gradient": gbad})
     ctx.key(("relax_region", h64(cfg)), nontrivial=len(set(tvals)) > 1)
     ctx.count("quadratures_" + cfg["est"])
     ctx.count("quadrature_nodes", B)
     if not close(wprod.sum().item(), 1.0, 1e-9):
         raise AssertionError("quadrature weights do not sum to one")
     if not close(got, want):
-        ctx.violation(dict(sig, symptom="biased-value", N=N), case, {"expected": want, "observed": got, "nodes": B})
+        ctx.violation(dict(sig, symptom="biased-value", N=N, nan=got != got), case,
+                      {"expected": want, "observed": got, "nodes": B})
     else:
         ctx.outcome(("rr", round(want, 4)))
 
@@ -284,6 +303,9 @@ def run_relaxdist(ctx, cfg):
                                dtype=torch.float64).view(P, 2, 1).expand(P, 2, S)
         interior = torch.tensor([[1e-4 < q < 1 - 1e-4] * 2 for q in pd]).view(P, 2, 1).expand(P, 2, S)
     else:
+        # None marks a masked class: logit exactly -inf (logits=) - the usual way of switching a class off
+        ninf = -float("inf")
+        pars = [[ninf if x is None else x for x in row] for row in pars]
         V = len(pars[0])
         nvec = list(itertools.product(noise, repeat=V))
         S = len(nvec)
@@ -299,6 +321,14 @@ def run_relaxdist(ctx, cfg):
         exp_tlp = torch.tensor([[math.log(max(q, 1e-300)) for q in row] for row in pd],
                                dtype=torch.float64).view(P, V, 1).expand(P, V, S)
         interior = torch.tensor([[q > 1e-4 for q in row] for row in pd]).view(P, V, 1).expand(P, V, S)
+    # exactly-masked classes (logit -inf): their relaxed coordinate is -inf with probability one
+    if (not logistic) and cfg["par"] == "logits":
+        dead_c = torch.tensor([[x == -float("inf") for x in row] for row in pars])  # (P, V)
+    else:
+        dead_c = torch.zeros(P, 1 if logistic else len(pars[0]), dtype=torch.bool)
+    any_dead = bool(dead_c.any())
+    if any_dead:
+        sig0["masked_logits"] = True
     n_cases = b.shape[0] * b.shape[1] * b.shape[2]
     case = {"kind": "relaxdist", "cfg": cfg}
 
@@ -324,6 +354,9 @@ def run_relaxdist(ctx, cfg):
                           {"count": int((~eq).sum()), "of": n_cases, "zcond": zc[tuple(i)].tolist()})
         # supports
         fin = torch.isfinite(zc) & torch.isfinite(zr)
+        if any_dead:  # a masked class' coordinate of an unconditional relaxed sample is -inf, never nan
+            dz = dead_c.view(P, 1, 1, -1).expand_as(zr)
+            fin = torch.isfinite(zc) & (torch.isfinite(zr) | (dz & (zr == -float("inf"))))
         fin = fin if logistic else fin.all(-1)
         ok_sup = dist.support.check(zc) & dist.support.check(zr) & fin
         tb = dist.threshold(zr)
@@ -340,10 +373,18 @@ def run_relaxdist(ctx, cfg):
             cl = dist.clog_prob(z, h).double()
             rhs = tl + cl
             okf = _lp_close(lhs, rhs, tol) & torch.isfinite(lhs)
+            if any_dead and name == "csample":
+                # csample gives a masked class a finite coordinate (probabilities are clamped), where the
+                # relaxed density is 0: both sides must then be -inf (never nan)
+                rows = dead_c.any(-1).view(P, 1, 1).expand_as(lhs)
+                okf = okf | (rows & (lhs == -float("inf")) & (rhs == -float("inf")))
+                # conditioning on a masked class itself (probability zero) has no conditional law
+                okf = okf | dead_c.view(P, -1, 1).expand_as(lhs)
             ctx.case(n_cases, nontrivial=n_cases)
             if not okf.all():
                 i = (~okf).nonzero()[0].tolist()
-                ctx.violation(dict(sig0, symptom="log_prob != tlog_prob + clog_prob", sampler=name),
+                ctx.violation(dict(sig0, symptom="log_prob != tlog_prob + clog_prob", sampler=name,
+                                   nan=bool(torch.isnan(lhs[~okf]).all() or torch.isnan(rhs[~okf]).all())),
                               dict(case, at=bdesc(i)),
                               {"log_prob": lhs[tuple(i)].item(), "tlog_prob": tl[tuple(i)].item(),
                                "clog_prob": cl[tuple(i)].item(), "count": int((~okf).sum())})
@@ -358,6 +399,17 @@ def run_relaxdist(ctx, cfg):
         # boundary torch clamps probabilities, which the property does not speak about)
         tl = dist.tlog_prob(b).double()
         okt = ((tl - exp_tlp).abs() <= 10 * tol * (1 + exp_tlp.abs())) | ~interior
+        if any_dead:
+            dd = dead_c.view(P, -1, 1).expand_as(tl)
+            okt = torch.where(dd, tl.exp() <= 10 * tol, okt)  # probability zero (nan fails)
+        # the threshold probabilities over the enumerated discrete support sum to one
+        tot = tl.exp().sum(1)
+        oks = (tot - 1.0).abs() <= 10 * tol
+        if not oks.all():
+            i = (~oks).nonzero()[0].tolist()
+            ctx.violation(dict(sig0, symptom="threshold-probabilities-do-not-sum-to-one"),
+                          dict(case, at={"param": pars[i[0]]}), {"sum": tot[tuple(i)].item(),
+                                                                   "tlog_prob": tl[i[0], :, i[1]].tolist()})
         ctx.case(n_cases)
         if not okt.all():
             i = (~okt).nonzero()[0].tolist()
